@@ -68,9 +68,9 @@ def main():
     prev = os.path.join(cand, 'confirm.json')
     if no_tests and os.path.exists(prev):
         pc = json.load(open(prev))
-        if pc.get('repo_head') == head:
-            meta['confirmed'] = pc['confirmed']
-            return phase2(meta, pc['diff'], checks, sid, demo, cand)
+        meta['confirmed'] = pc['confirmed']
+        meta['confirmed_at_repo_head'] = pc.get('repo_head')
+        return phase2(meta, pc['diff'], checks, sid, demo, cand)
     wt = f'/tmp/seedwt_{sid}'
     sh(f'git worktree remove --force {wt}', cwd=REPO)
     shutil.rmtree(wt, ignore_errors=True)
@@ -129,8 +129,17 @@ def phase2(meta, newdiff, checks, sid, demo, cand):
     open(tmp, 'w').write(newdiff)
     rc, out = sh(f'git apply {tmp}', cwd=REPO)
     if rc != 0:
-        print('cannot apply to /repo: ' + out)
-        return 3
+        rc, out = sh(f'git apply --3way {tmp}', cwd=REPO)
+        if rc != 0 or '<<<<<<<' in sh('git diff', cwd=REPO)[1]:
+            sh('git reset -q --hard HEAD', cwd=REPO)
+            print('cannot apply to /repo (conflicts with later fix commits): ' + out[-300:])
+            return 3
+        sh('git reset -q', cwd=REPO)
+        # the demo must still fail on the adapted tree
+        env = {'PYTHONPATH': os.path.join(REPO, 'src'), 'MPLBACKEND': 'Agg', 'PYTHONHASHSEED': '0'}
+        rcd, _ = sh(f'/venv/bin/python {demo}', cwd='/tmp', env=env, timeout=900)
+        meta['confirmed']['demo_exit_changed_after_3way'] = rcd
+        _, newdiff = sh('git diff', cwd=REPO)
     try:
         for c in checks:
             rc, out = sh(f'./check {c} --tier quick', cwd=VERIF, timeout=3000)
